@@ -72,7 +72,8 @@ Inductive alt : Type :=
 | AltFirst (v : N)            (* set Index / StartVersion *)
 | AltSecond (v : N)           (* set Version / EndVersion *)
 | AltDigestA (d : bytes)      (* replace event digest (membership) / start digest (incremental) *)
-| AltDigestB (d : bytes).     (* replace root digest (membership) / end digest (incremental) *)
+| AltDigestB (d : bytes)      (* replace root digest (membership) / end digest (incremental) *)
+| AltDropDb (k : N) (d : bytes).   (* both at once: remove the k-th entry and replace the root / end digest *)
 
 Definition flip_first (d : bytes) : bytes :=
   match d with [] => [1]%uint63 | x :: r => (x lxor 1)%uint63 :: r end.
@@ -93,12 +94,13 @@ Definition alt_path (a : alt) (p : list (pos * bytes)) : list (pos * bytes) :=
   match a with
   | AltEntry k => alter_nth (N.to_nat k) (canon p)
   | AltDrop k => drop_nth (N.to_nat k) (canon p)
+  | AltDropDb k _ => drop_nth (N.to_nat k) (canon p)
   | _ => p
   end.
 Definition alt_first (a : alt) (x : N) := match a with AltFirst v => v | _ => x end.
 Definition alt_second (a : alt) (x : N) := match a with AltSecond v => v | _ => x end.
 Definition alt_da (a : alt) (x : bytes) := match a with AltDigestA d => d | _ => x end.
-Definition alt_db (a : alt) (x : bytes) := match a with AltDigestB d => d | _ => x end.
+Definition alt_db (a : alt) (x : bytes) := match a with AltDigestB d => d | AltDropDb _ d => d | _ => x end.
 
 Record hist_case := {
   hc_events : list bytes;
